@@ -269,7 +269,11 @@ def _absr(x):
 def closes(E, ll, al, r):
     """the loop's test for reaction r: ~zero in the cycle-free solution, not ~zero in the almost cycle-free one"""
     idA = idarr(E, E.s0)
-    return z3.And(_absr(z3.Select(ll["val"], idA[r])) < CUTOFF, _absr(z3.Select(al["val"], idA[r])) > CUTOFF)
+    # ... and whose ENTRY bounds admit the flux 0 (since the repair recorded in known_findings.jsonl: a reaction with lb > 0 or ub < 0
+    # cannot be closed - the pair (max(0, lb), min(0, ub)) is not valid - and used to make the bounds setter raise ValueError)
+    lb0, ub0 = C1.lbub(E, E.s0, r)
+    return z3.And(_absr(z3.Select(ll["val"], idA[r])) < CUTOFF, _absr(z3.Select(al["val"], idA[r])) > CUTOFF,
+                  xr_le(lb0, CF.ZERO), xr_le(CF.ZERO, ub0))
 
 
 def _closed_effect(E, st, ll, al, upto):
@@ -498,7 +502,7 @@ def _cases():
         c = Case(tag, ensures=_post)
         c.params_override = {"solution": TConc(flag)}
         c.applies = (lambda fl: lambda a, st: _flag(a.get("solution")) is fl and not isinstance(C4.value_of(st, a["model"]), VNone))(flag)
-        c.may_raise = "Exception"       # OptimizationError (a status without primal values), ValueError (closing a reaction whose bounds exclude 0)
+        c.may_raise = "OptimizationError"       # a status without primal values; (before the repair also ValueError: closing a reaction whose bounds exclude 0)
         c.ensures_on_raise = _on_raise
         c.modifies_on_raise = _mod
         out.append(c)
